@@ -312,6 +312,15 @@ bool fault_fired()
 {
     return g_fired;
 }
+bool refuse_if_beyond_machine(size_t size)
+{
+    Lock l;
+    if (g_depth > 0 && size > MACHINE_LIMIT) {
+        g_big = true;
+        return true;
+    }
+    return false;
+}
 bool big_refused()
 {
     return g_big;
@@ -412,9 +421,17 @@ void operator delete[](void *p, const std::nothrow_t &) noexcept
 {
     do_free(p);
 }
-// over-aligned forms: not used by covfie; plain aligned_alloc, untracked
+// over-aligned forms: not used by the pinned covfie; plain aligned_alloc, untracked - but the
+// simulated machine's size applies to them too (a rewrite that allocates its storage
+// over-aligned must meet the same 256 MiB machine, not the real one with its overcommit)
+static bool refuse_big_aligned(std::size_t n)
+{
+    return sim::alloc::refuse_if_beyond_machine(n);
+}
 void *operator new(std::size_t n, std::align_val_t a)
 {
+    if (refuse_big_aligned(n))
+        throw std::bad_alloc();
     void *p = std::aligned_alloc((size_t)a, (n + (size_t)a - 1) / (size_t)a * (size_t)a);
     if (!p)
         throw std::bad_alloc();
